@@ -98,6 +98,13 @@ def run(ctx, rep, tier):
         pool = MATCHERS + PRINTERS
         seqs.append([rnd.choice(pool) for _ in range(k)])
     rnd.shuffle(seqs)
+    # directed: the same request three times, alone and with another request between the second and third use
+    directed = []
+    for pool in (MATCHERS, PRINTERS):
+        for i, x in enumerate(pool if tier != "quick" else pool[::2]):
+            y = pool[(i + 1) % len(pool)]
+            directed += [[x, x, x], [x, x, y, x], [x, y, x, y, x]]
+    seqs = directed + seqs
     samples, n = [], 0
     t0 = time.process_time()
     budget = 220 if tier == "quick" else 3000
